@@ -84,7 +84,7 @@ def gen_rc3(rng):
         e = rnd_e(rng) if kind != "t" else [0.0, 0.0, 0.0]
         sets.append(t + e)
     p = [rng.uniform(-5, 5) for _ in range(3)]
-    off = rng.choice([1.0, 1.0, 1e-3, 0.0])
+    off = rng.choice([1.0, 1.0, 1e-3, 1e-5, 1e-6, 1e-7, 0.0])      # test point and reference: far, near (a converged alignment), coincident
     return {"k": "c08.rc3", "init": [rng.uniform(-1, 1) * s for _ in range(3)] + rnd_e(rng),
             "rc": [rng.choice([0.0, rng.uniform(-5, 5), rng.uniform(-1000, 1000)]) for _ in range(3)], "sets": sets, "p": p,
             "sp": [a + rng.uniform(-1, 1) * off for a in p], "sn": [rng.uniform(-1, 1), rng.uniform(-1, 1), rng.uniform(0.05, 1)],
@@ -287,6 +287,13 @@ def oracle(c, r):
                 if abs(fd - j[name][i]) > 1e-6 * lever * 10:
                     yield ("jacobian3-" + name, "%s Jacobian entry %d is %r, central finite difference of the residual %r (Euler %r)" % (name, i, j[name][i], fd, x0[3:]))
                     break
+        # point-to-point, whatever the separation above the coincidence guard (1e-8): the translation entries are the unit vector from
+        # the reference to the test point (the derivative of |p + t - c| in t), also for a well-converged pair
+        sep = math.dist(p, cp)
+        if sep > 1e-7:
+            unit = [(p[i] - cp[i]) / sep for i in range(3)]
+            if max(abs(j["point"][i] - unit[i]) for i in range(3)) > 1e-6 + 1e-9 * max(abs(x) for x in p) / sep:
+                yield ("jacobian3-point", "point Jacobian translation entries %r for a test point %r from its reference: the derivative of the distance is the unit offset %r" % (j["point"][:3], sep, unit))
         # the reference-side variant: translation entries are the negated plane entries
         if abs(d0) > 1e-4 and max(abs(a + b) for a, b in zip(j["plane"][:3], j["rev"][:3])) > 1e-12:
             yield ("jacobian3-rev", "reference-side translation entries %r are not the negation of %r" % (j["rev"][:3], j["plane"][:3]))
